@@ -7,20 +7,20 @@ Open Scope Z_scope.
 Open Scope list_scope.
 
 (* ---------- specification vocabulary ---------- *)
-Definition src_rdds (q : list (list val)) (n : nat) : list rdd := map (src_rdd q) (seq 0 n).
+Definition src_rdds (q : source) (n : nat) : list rdd := map (src_rdd q) (seq 0 n).
 (* the last k elements *)
 Definition lastn {A} (k : nat) (l : list A) : list A := skipn (length l - k) l.
 (* window buffer after n intervals: the RDDs of the last min w n intervals *)
-Definition win_buf (q : list (list val)) (w : Z) (n : nat) : list rdd := lastn (Z.to_nat w) (src_rdds q n).
+Definition win_buf (q : source) (w : Z) (n : nat) : list rdd := lastn (Z.to_nat w) (src_rdds q n).
 Definition union_data (l : list rdd) : rdd :=
   if forallb is_empty_rdd l then REmpty else RData (concat (map collect l)).
 (* the windowed stream's RDD after n intervals: the union at the last emitting interval, None before *)
-Fixpoint win_rdd_spec (q : list (list val)) (w s : Z) (n : nat) : rdd :=
+Fixpoint win_rdd_spec (q : source) (w s : Z) (n : nat) : rdd :=
   match n with
   | O => RNone
   | S m => if Z.of_nat (S m) mod s =? 0 then union_data (win_buf q w (S m)) else win_rdd_spec q w s m
   end.
-Definition win_state (q : list (list val)) (w s : Z) (n : nat) (T : Z) : nstate :=
+Definition win_state (q : source) (w s : Z) (n : nat) (T : Z) : nstate :=
   mkN T (win_rdd_spec q w s n) [] (win_buf q w n) (Z.of_nat n mod s) [].
 
 (* ---------- lists ---------- *)
@@ -106,7 +106,7 @@ Qed.
 
 
 Section WindowInstance.
-Variables (q : list (list val)) (w s : Z).
+Variables (q : source) (w s : Z).
 Hypothesis Hs : 0 < s.
 
 Lemma win_S1_step : forall F tail st n T t,
@@ -137,16 +137,14 @@ Definition window_program_log k :=
                 win_S1_init win_S1_step k.
 End WindowInstance.
 
-(* the batch of interval i+1; nothing once the queue is exhausted *)
-Definition batch_at (q : list (list val)) (i : nat) : list val := nth i q [].
-Definition batches (q : list (list val)) (n : nat) : list (list val) := map (batch_at q) (seq 0 n).
+(* the batch of interval i+1: the elements of the (i+1)-th queue entry (none for an idle None entry), those of the default
+   once the queue has run dry *)
+Definition entry_batch (e : option (list val)) : list val := match e with Some b => b | None => [] end.
+Definition batch_at (q : source) (i : nat) : list val := entry_batch (nth i (sq q) (sd q)).
+Definition batches (q : source) (n : nat) : list (list val) := map (batch_at q) (seq 0 n).
 
 Lemma collect_src_rdd q i : collect (src_rdd q i) = batch_at q i.
-Proof.
-  unfold src_rdd, batch_at. destruct (nth_error q i) as [b|] eqn:E.
-  - symmetry. now apply nth_error_nth.
-  - apply nth_error_None in E. now rewrite nth_overflow.
-Qed.
+Proof. unfold src_rdd, batch_at. destruct (nth i (sq q) (sd q)); reflexivity. Qed.
 
 Lemma map_collect_src_rdds q n : map collect (src_rdds q n) = batches q n.
 Proof. unfold src_rdds, batches. rewrite map_map. apply map_ext. intros; apply collect_src_rdd. Qed.
@@ -213,11 +211,11 @@ Proof.
   rewrite Heq, Z_mod_same_full in E. congruence.
 Qed.
 
-Definition window_log (q : list (list val)) (w s : Z) (k n : nat) (ts : list Z) : list logentry :=
+Definition window_log (q : source) (w s : Z) (k n : nat) (ts : list Z) : list logentry :=
   cons_log (win_rdd_spec q w s) k n ts.
 
 Section Statements.
-Variables (q : list (list val)) (w s : Z) (tail : list node).
+Variables (q : source) (w s : Z) (tail : list node).
 Hypothesis Hs : 0 < s.
 Local Notation g := (Src q :: Window w s 0 :: tail).
 
